@@ -1455,7 +1455,7 @@ pub fn bnd_c12() {
             if li > 0 && li + 1 < nl && r.below(6) == 0 { src.push(s); continue; }     // interior blank line
             for k in 0..1 + r.below(4) {
                 if k > 0 || r.below(4) == 0 { match r.below(6) { 0 => s.push('\t'), 1 => { for _ in 0..1 + r.below(3) { s.push(' '); } s.push('\t'); } _ => { for _ in 0..1 + r.below(5) { s.push(' '); } } } }
-                if r.below(7) == 0 { s.push_str("\u{4e2d}\u{6587}"); } else { for _ in 0..1 + r.below(6) { s.push((b'a' + r.below(26) as u8) as char); } }
+                if r.below(7) == 0 { for _ in 0..1 + r.below(4) { s.push(['\u{4e2d}', '\u{6587}', '\u{6f22}', '\u{5b57}'][r.below(4) as usize]); } } else { for _ in 0..1 + r.below(6) { s.push((b'a' + r.below(26) as u8) as char); } }
             }
             if r.below(5) == 0 { s.push_str("  "); }
             src.push(s);
@@ -1557,12 +1557,15 @@ pub fn bnd_c15() {
     for i in 0..ndoc {
         let mut tok = 0;
         let mut html = String::new();
-        if i % 2 == 0 { for _ in 0..1 + r.below(2) { html.push_str(&gen_block(&mut r, &mut tok, 0)); } html.push_str("<p>a <s>struck text</s> b <s>two  spaces\n   and a newline</s> c <s>nl\nsep\ttab</s></p><pre>p <s>l1\nl2\tl3</s></pre>"); }
+        if i % 2 == 0 { for _ in 0..1 + r.below(2) { html.push_str(&gen_block(&mut r, &mut tok, 0)); } html.push_str("<p>a <s>struck text</s> b <s>two  spaces\n   and a newline</s> c <s>nl\nsep\ttab</s></p><pre>p <s>l1\nl2\tl3</s></pre><br><p>Hello there</p><table><tr><td><br>x1</td><td>y2<br><br>z3</td></tr></table><div><br></div><p>end</p>"); }
         else {
             html.push_str("<table>");
             for _ in 0..1 + r.below(3) { html.push_str("<tr>"); for _ in 0..2 { tok += 1; if r.below(2) == 0 { html.push_str(&format!("<td>c{} <a href=\"http://h/{}\">link{}</a> t</td>", tok, tok, tok)); } else if r.below(3) == 0 { html.push_str(&format!("<td>cell{} with a much longer run of words than any width used here so that estimates exceed the width</td>", tok)); } else { html.push_str(&format!("<td>cell{} words here</td>", tok)); } } html.push_str("</tr>"); }
             html.push_str("</table><p>after <a href=\"u\">l</a></p>");
         }
+        // blank-only content in front of the first block (of the document, of a cell)
+        if i % 5 == 0 { html = format!("<br>{}", html); }
+        if i % 5 == 1 { html = format!("<table><tr><td><br><p>pa</p></td><td>bb</td></tr></table><div><br><br></div>{}", html); }
         for w in (8..=40usize).step_by(4) {
             let input = format!("width={} html={}", w, html);
             rep.case(&input);
